@@ -235,3 +235,18 @@ func (w *world) decode(entry string, o optSet, rs readerSpec) (impl, model decOu
 	}
 	return impl, model, nil
 }
+
+// decodeModelOnly advances the model (and its accumulator mirror) for an
+// implementation call made outside world.decode.
+func (w *world) decodeModelOnly(entry string, o optSet, rs readerSpec) (decOut, decOut, error) {
+	req := fmt.Sprintf("decode %s %s %s %s", entry, o.String(), rs.driverArgs(), w.g)
+	resp, err := w.d.ask(req)
+	if err != nil {
+		return decOut{}, decOut{}, err
+	}
+	model, err := parseModel(entry, resp)
+	if err == nil && model.G != "" {
+		w.g = model.G
+	}
+	return decOut{}, model, err
+}
